@@ -347,7 +347,7 @@ func (p *c18Pkg) coq() string {
 
 var c18Sandboxed = map[string]map[string]bool{
 	"os":  {"Exit": true, "FindProcess": true},
-	"log": {"Fatal": true, "Fatalf": true, "Fatalln": true, "Logger": true, "New": true},
+	"log": {"Default": true, "Fatal": true, "Fatalf": true, "Fatalln": true, "Logger": true, "New": true},
 }
 
 type c18RefBind struct {
